@@ -117,8 +117,12 @@ func c10Apply(s stackage.Stack, o c10Op) c10Out {
 }
 
 // c10Step is the sequential specification: the list model of C01.
+// c10NegModel: the duel at hand runs on a stack with negative indices on (set only while its two sequential outcomes are
+// computed; nothing runs concurrently then).
+var c10NegModel bool
+
 func c10Step(state string, fifo bool, capacity int, o c10Op) (c10Out, string) {
-	m := &ListModel{Items: decodeList(state), Fifo: fifo, Cap: capacity}
+	m := &ListModel{Items: decodeList(state), Fifo: fifo, Cap: capacity, Neg: c10NegModel}
 	var out c10Out
 	switch o.K {
 	case "Push":
@@ -702,7 +706,11 @@ func c10Run(c *core.Ctx, idx int) {
 	case idx < pairs+sampled+stress:
 		c10Stress(c)
 	case idx < pairs+sampled+stress+c10HammerCases(c.Tier):
-		c10Hammer(c)
+		if (idx-(pairs+sampled+stress))%120 == 60 {
+			c10Giant(c)
+		} else {
+			c10Hammer(c)
+		}
 	default:
 		c10Duel(c, idx-(pairs+sampled+stress+c10HammerCases(c.Tier)))
 	}
@@ -743,10 +751,27 @@ func c10Duel(c *core.Ctx, k int) {
 		s.SetPushPolicy(func(...any) error { return nil })
 		c.Count("duel.pairs-with-push-policy")
 	}
+	neg := false
+	if (opA.K == "Remove" && opA.I == L-1) || (opB.K == "Remove" && opB.I == L-1) {
+		if r.Chance(1, 2) {
+			// "the last one" spelled from the far end: resolved against the length the stack has WHEN THE CALL TAKES EFFECT
+			neg = true
+			s.SetNegativeIndices(true)
+			if opA.K == "Remove" && opA.I == L-1 {
+				opA.I = -1
+			}
+			if opB.K == "Remove" && opB.I == L-1 {
+				opB.I = -1
+			}
+			c.Count("duel.pairs-with-negative-index")
+		}
+	}
 	s.SetMutex()
 	c10Register(s)
 	init := []any{1, 2, 3}
 	initEnc := encodeList(init)
+	c10NegModel = neg
+	defer func() { c10NegModel = false }()
 	// the two sequential outcomes
 	type outcome struct {
 		a, b  c10Out
@@ -846,6 +871,115 @@ func c10HammerCases(tier string) int {
 // EVERY sequential order of whole calls it holds at least two values at any time: each Pop must return a value, each
 // Replace(x,0) must report success, nothing may panic, and at the end the length is what it was, every
 // value is an initial one or a replacement token, and none occurs twice (conservation with unique values).
+// c10Giant: the same conservation argument on a stack of another magnitude. A mutex-enabled stack is preloaded with tens of
+// thousands of unique values; three goroutines pop it down to a fraction of its size while a fourth keeps pushing new
+// unique values. Afterwards every value ever put in came out exactly once or is still there.
+func c10Giant(c *core.Ctx) {
+	r := c.Rng
+	N := []int{70000, 66000, 140000}[r.Intn(3)]
+	if c.Tier == "thorough" && r.Chance(1, 2) {
+		N = 300000
+	}
+	fifo := r.Bool()
+	s := NewStackArgs(Kinds[r.Intn(5)])
+	if fifo {
+		s.SetFIFO(true)
+	}
+	batch := make([]any, 0, 1000)
+	for v := 1; v <= N; v++ {
+		batch = append(batch, v)
+		if len(batch) == 1000 || v == N {
+			s.Push(batch...)
+			batch = batch[:0]
+		}
+	}
+	s.SetMutex()
+	c10Register(s)
+	desc := map[string]any{"preloaded": N, "fifo": fifo}
+	target := N / 8 // pop until an eighth is left
+	M := 3000       // pushed meanwhile
+	var popped [3][]int
+	var bad atomic.Value
+	var wg sync.WaitGroup
+	var remaining atomic.Int64
+	remaining.Store(int64(N - target))
+	for w := 0; w < 3; w++ {
+		wg.Add(1)
+		go func(w int) {
+			defer wg.Done()
+			defer func() {
+				if p := recover(); p != nil {
+					bad.Store(fmt.Sprintf("Pop panicked: %v", p))
+				}
+			}()
+			for remaining.Add(-1) >= 0 {
+				v, ok := s.Pop()
+				if !ok {
+					bad.Store("Pop found nothing although tens of thousands of values are present in every sequential order")
+					return
+				}
+				popped[w] = append(popped[w], asInt(v))
+				if len(popped[w])%4096 == 0 {
+					core.Beat()
+				}
+			}
+		}(w)
+	}
+	wg.Add(1)
+	go func() {
+		defer wg.Done()
+		defer func() {
+			if p := recover(); p != nil {
+				bad.Store(fmt.Sprintf("Push panicked: %v", p))
+			}
+		}()
+		for i := 1; i <= M; i++ {
+			s.Push(N + i)
+			if i%8 == 0 {
+				runtime.Gosched()
+			}
+		}
+	}()
+	wg.Wait()
+	if b, _ := bad.Load().(string); b != "" {
+		c.Violate("giant:"+strings.Fields(b)[0], b, desc)
+		return
+	}
+	seen := make([]uint8, N+M+1)
+	for w := range popped {
+		for _, v := range popped[w] {
+			if v < 1 || v > N+M {
+				c.Violate("giant:fabricated", fmt.Sprintf("Pop returned %d, which nobody put in", v), desc)
+				return
+			}
+			seen[v]++
+		}
+	}
+	for _, v := range contentOf(s) {
+		iv := asInt(v)
+		if iv < 1 || iv > N+M {
+			c.Violate("giant:fabricated", fmt.Sprintf("the stack holds %s, which nobody put in", Show(v)), desc)
+			return
+		}
+		seen[iv]++
+	}
+	lost, dup := 0, 0
+	for v := 1; v <= N+M; v++ {
+		switch {
+		case seen[v] == 0:
+			lost++
+		case seen[v] > 1:
+			dup++
+		}
+	}
+	if lost > 0 || dup > 0 {
+		c.Violate("giant:conservation", fmt.Sprintf("of %d preloaded and %d pushed unique values, %d are neither popped nor present and %d occur more than once (final Len %d)", N, M, lost, dup, s.Len()), desc)
+		return
+	}
+	c.Count("giant.runs")
+	c.NontrivialStr(fmt.Sprintf("giant|%d|%v", N, fifo))
+}
+
 func c10Hammer(c *core.Ctx) {
 	r := c.Rng
 	P := r.Range(1, 3)
